@@ -44,7 +44,7 @@ def run(sc, keep_sim=False, hold=None):
                 cb = st.cb(sub['cid'], 'sub', script=_script(sub.get('script'), st))
                 st.subscribe(cb, sub.get('filt'))
             for ci, cd in enumerate(sd.get('cas', [])):
-                st.add_ca(cd['name'], cd.get('addr'), cd.get('bypass', False))
+                st.add_ca(cd['name'], cd.get('addr'), cd.get('bypass', False), cd.get('accept_all', False))
                 for cid in cd.get('subs', []):
                     st.ca_subscribe(ci, st.cb(cid, 'sub'))
                 for cid in cd.get('req', []):
